@@ -57,9 +57,23 @@ func checkC18(c *Ctx) {
 		return
 	}
 	regMap := c.Prog.LookupType(ModulePath+"/"+pkgState, "RegMap")
-	mField := FieldByName(regMap, "m")
+	// the register table: the (one) map-typed field of RegMap, whatever its name
+	var mField *types.Var
+	if regMap != nil {
+		if st, ok := regMap.Underlying().(*types.Struct); ok {
+			for i := 0; i < st.NumFields(); i++ {
+				if _, isMap := st.Field(i).Type().Underlying().(*types.Map); isMap {
+					if mField != nil {
+						mField = nil
+						break
+					}
+					mField = st.Field(i)
+				}
+			}
+		}
+	}
 	if mField == nil {
-		c.Undecide("field RegMap.m not found")
+		c.Undecide("RegMap has no (single) map field holding the registers")
 		return
 	}
 
